@@ -391,6 +391,41 @@ pub fn generate(ctx: &mut Ctx) {
             ctx.case("soup:rows", &format!("rows {}", vx::hex(&g)));
         }
     }
+    // EVERY string up to a length over the bytes the lexer dispatches on: the whole of a small input space, so that the
+    // model and the code are compared on every boundary between two token kinds, not on a sample of them
+    {
+        let alpha: &[u8] = b"1-.e:TZ\"`@^a_N<>[]{},( \n\\$C/+";
+        let max_len = if ctx.quick() { 3 } else { 4 };
+        let mut buf: Vec<u8> = Vec::new();
+        fn rec(ctx: &mut Ctx, alpha: &[u8], buf: &mut Vec<u8>, left: usize) {
+            ctx.case("short:dec", &format!("dec {}", vx::hex(buf)));
+            if left == 0 {
+                return;
+            }
+            for &b in alpha {
+                buf.push(b);
+                rec(ctx, alpha, buf, left - 1);
+                buf.pop();
+            }
+        }
+        rec(ctx, alpha, &mut buf, max_len);
+        // the same strings (up to one byte shorter) as the row lines of a two-column grid
+        let mut buf: Vec<u8> = Vec::new();
+        fn rec_rows(ctx: &mut Ctx, alpha: &[u8], buf: &mut Vec<u8>, left: usize) {
+            let mut g = b"ver:\"3.0\"\na,b\n".to_vec();
+            g.extend_from_slice(buf);
+            ctx.case("short:rows", &format!("rows {}", vx::hex(&g)));
+            if left == 0 {
+                return;
+            }
+            for &b in alpha {
+                buf.push(b);
+                rec_rows(ctx, alpha, buf, left - 1);
+                buf.pop();
+            }
+        }
+        rec_rows(ctx, alpha, &mut buf, max_len - 1);
+    }
     // number spellings: every exponent 0..45 and the overflow / underflow boundaries, each sign, integral and
     // fractional mantissas, with and without a unit, alone and as a grid cell (a table-driven fast path of a number
     // reader has its edges at particular exponents, not at particular lengths)
